@@ -52,3 +52,22 @@ def check_with_blocks(tree, rep, rule, files):
     if n == 0 and withs:
         # no context manager class in the package: the with blocks use library objects only
         rep.check(rule, "no context manager class is defined in the package (%d with-blocks use library objects)" % withs, True)
+
+
+def swallowing_handlers(fn, covers):
+    """except-clauses of `fn` that can end without re-raising although their try-body contains a call for which covers(call) is true:
+    a failure of that call is turned into a normal return.  Returns [(handler, call)]."""
+    from .cfg import build
+    out = []
+    g = None
+    for t in [n for n in ast.walk(fn) if isinstance(n, ast.Try)]:
+        hit = [c for b in t.body for c in ast.walk(b) if isinstance(c, ast.Call) and covers(c)]
+        if not hit:
+            continue
+        g = g or build(fn)
+        raises = g.nodes(lambda st: isinstance(st, ast.Raise))
+        for h in t.handlers:
+            hn = g.node_of(h)
+            if hn is None or not g.must_pass(raises, start=hn, to=[g.exit], explicit_only=True):
+                out.append((h, hit[0]))
+    return out
